@@ -1,6 +1,7 @@
 """C12 - file and command-line front ends agree with the in-memory assembler."""
 from __future__ import annotations
 
+import json
 import random
 import re
 
@@ -217,11 +218,57 @@ def run_shard(shard: dict) -> Res:
             check_point(res, p, fmt, mapping, copier, defs, "subprocess")
         if i == 0:
             res.sample({"point": [fmt, mapping, copier, defs], "src": source(p["prog"])[:400]})
+    for _ in range(3):
+        check_reused_program(res, [(rng.choice(["ips", "ips", "sfc"]), rng.choice(["low", "low2", "high"]), rng.random() < 0.5, rng.choice([0, 0x10, 0x7FFD, 0x8000, 0x12345])) for _ in range(rng.randint(2, 5))])
     return res
+
+
+def check_reused_program(res: Res, calls: list) -> None:
+    """A build script makes several outputs with one Program object: every call is governed by its own arguments (format, mapping,
+    copier header) - the patch / image of each call holds that call's bytes at that call's offsets."""
+    from pathlib import Path
+
+    from a816.program import Program
+    from vf.frontends import image_of_ips
+    from vf.harness import Scratch
+
+    wit = {"kind": "reused_program", "calls": calls}
+    res.case(("reused", json.dumps(calls)), True)
+    res.count("reused_program_sequences")
+    prog = Program()
+    with Scratch({}):
+        for step, (fmt, mapping, copier, off) in enumerate(calls):
+            addr = (0xC00000 + off) if mapping == "high" else (((off // 0x8000) + (0x80 if mapping == "low2" else 0)) << 16) | (0x8000 + off % 0x8000)
+            data = bytes([0x5A, step + 1, 0xA5])
+            with open("t.s", "w", encoding="utf-8") as f:
+                f.write(f"*={addr:#08x}\n.db 0x5A, {step + 1}, 0xA5\n")
+            try:
+                if fmt == "ips":
+                    rc = prog.assemble_as_patch("t.s", Path("out.ips"), mapping, copier)
+                else:
+                    rc = prog.assemble("t.s", Path("out.sfc"), mapping)
+                raw = open("out.ips" if fmt == "ips" else "out.sfc", "rb").read()
+            except Exception as e:  # noqa: BLE001
+                res.violate("reused-program", f"call {step + 1} of {calls} on one Program raised {e!r}", wit)
+                return
+            res.count("calls_on_a_reused_program")
+            if fmt == "ips":
+                img, why = image_of_ips(raw)
+                at = off + (0x200 if copier else 0)
+                ok = rc == 0 and img is not None and img.read(at, 3) == data and img.written() == 3
+            else:
+                ok = rc == 0 and len(raw) == off + 3 and raw[off:] == data
+            if not ok:
+                res.violate("reused-program", f"call {step + 1} ({fmt} -m {mapping} copier={copier}, a byte at file offset {off:#x}) on a Program that served {calls[:step]} before: "
+                            f"status {rc}, the output does not hold exactly these bytes at {'offset + 0x200' if copier and fmt == 'ips' else 'that offset'}", wit)
+                return
 
 
 def replay(w: dict) -> Res:
     res = Res()
+    if w.get("kind") == "reused_program":
+        check_reused_program(res, [tuple(c) for c in w["calls"]])
+        return res
     files = {k: (v if not all(c in "0123456789abcdef" for c in v[:8]) or k.endswith(".s") else bytes.fromhex(v)) for k, v in w["files"].items()}
     p = {"prog": [{"k": "raw", "text": w["src"].rstrip("\n")}], "files": files, "tables": {}, "rom": "high" if w["mapping"] == "high" else "low"}
     check_point(res, p, w["fmt"], w["mapping"], w["copier"], w["defs"], w["front"], w.get("layout", "cwd"))
